@@ -28,11 +28,15 @@ type Grease struct {
 	N    int `json:"n"`
 	Body int `json:"body"`
 	Tag  int `json:"tag"`
+	Arg  int `json:"arg,omitempty"` // length of an extra (long) argument on the stanza line
 }
 
 func (r Recip) String() string {
 	if r.Key != nil {
 		return r.Key.String()
+	}
+	if r.Grease.Arg > 0 {
+		return fmt.Sprintf("g%dx%da%d", r.Grease.N, r.Grease.Body, r.Grease.Arg)
 	}
 	return fmt.Sprintf("g%dx%d", r.Grease.N, r.Grease.Body)
 }
@@ -61,7 +65,7 @@ func BuildRecipients(rs []Recip) []age.Recipient {
 		if r.Key != nil {
 			out = append(out, world.Recipient(*r.Key))
 		} else {
-			out = append(out, &world.GreaseRecipient{N: r.Grease.N, BodyLen: r.Grease.Body, Tag: r.Grease.Tag})
+			out = append(out, &world.GreaseRecipient{N: r.Grease.N, BodyLen: r.Grease.Body, Tag: r.Grease.Tag, ArgLen: r.Grease.Arg})
 		}
 	}
 	return out
@@ -103,7 +107,14 @@ func GenRecips(r *core.RNG, max int, allowRSA, allowScrypt bool) []Recip {
 			out = append(out, Recip{Key: &world.Key{T: "r", K: r.Intn(world.NRSA)}})
 			real = true
 		default:
-			out = append(out, Recip{Grease: &Grease{N: r.Range(0, 2), Body: r.Pick(0, 47, 48, 49, 96, 96, 4000, 5000), Tag: r.Intn(100)}})
+			g := &Grease{N: r.Range(0, 2), Body: r.Pick(0, 47, 48, 49, 96, 96, 4000, 5000), Tag: r.Intn(100)}
+			if r.Chance(1, 12) {
+				g.Arg = r.Pick(100, 4070, 4090, 4100, 5000, 20000) // a stanza line around and beyond one 4096-byte buffer
+				if g.N == 0 {
+					g.N = 1
+				}
+			}
+			out = append(out, Recip{Grease: g})
 		}
 	}
 	if !real {
@@ -548,6 +559,9 @@ func ClampGrease(rs []Recip, max int) {
 	for _, r := range rs {
 		if r.Grease != nil && r.Grease.Body > max {
 			r.Grease.Body = max
+		}
+		if r.Grease != nil && r.Grease.Arg > max {
+			r.Grease.Arg = 0
 		}
 	}
 }
